@@ -217,11 +217,12 @@ type VerifTableProgress struct {
 	FieldsSent, FieldsApplied int64
 	Marker                    int64
 	LastDone                  map[int]wal.Offset
+	Ready                     bool // the row store has created its memstore
 }
 
 // Quiet reports whether nothing is in flight inside the table.
 func (p VerifTableProgress) Quiet() bool {
-	return p.Started == p.Done && p.Sent == p.Applied && p.FieldsSent == p.FieldsApplied
+	return p.Ready && p.Started == p.Done && p.Sent == p.Applied && p.FieldsSent == p.FieldsApplied
 }
 
 // VerifProgress returns the progress of all non-virtual tables.
@@ -249,6 +250,9 @@ func (db *DB) VerifProgress() []VerifTableProgress {
 			Started:       atomic.LoadInt64(&ts.started),
 			LastDone:      map[int]wal.Offset{},
 		}
+		t.rowStore.mx.RLock()
+		p.Ready = t.rowStore.memStore != nil
+		t.rowStore.mx.RUnlock()
 		ts.mx.Lock()
 		p.Marker = ts.marker
 		for k, v := range ts.lastDone {
